@@ -23,7 +23,7 @@ P = {
          "Enumerates the failing call index k over the n calls of each fault-free run (all k when n <= 48, else first/last/random 16 each).", "4 C04"),
  "c05": ("exploration", "relational oracle points() vs contains() (through the PointsIter/ContainsPoint traits) on the real primitives, probing contains() on the bounding box plus a margin and on far-away points; order/uniqueness/bounding-box invariants on the yielded sequence; the iterator consumed through count/last/fold/nth/skip from partly consumed states; shapes with one side beyond 16 bits walked row by row",
          "Exhaustive over small sizes, radii, vertex grids and angle grids, random beyond.", "4 C05"),
- "c06": ("exploration", "reference model built from fill_area()/stroke_area().contains() compared with the recorded pixel maps of draw() (both targets, unbounded and bounded boxes) and pixels(); geometric oracle for the grown/shrunk areas; shapes with one side beyond 16 bits; circles of 600..1400 px",
+ "c06": ("exploration", "reference model built from fill_area()/stroke_area().contains() compared with the recorded pixel maps of draw() (both targets, unbounded and bounded boxes) and pixels(); geometric oracle for the grown/shrunk areas; shapes with one side beyond 16 bits; circles of 600..1400 px; every case also drawn from a Styled whose public fields were assigned after construction",
          "Exhaustive over the four closed shapes x small sizes x stroke widths (also wider than the shape, and inside strokes of extreme width up to u32::MAX) x alignments x colour presence.", "4 C06"),
  "c07": ("exploration", "metamorphic relation monitored on recorded pixel maps (unbounded and bounded targets): render(x.translate(d)) == shift(render(x), d), likewise points(), contains(), bounding boxes and text's returned position; translate_mut == translate; two translations add up; far offsets (around 2^15, 2^16, up to 10^6)",
          "All drawables of the zoo x offsets incl. axis crossings; polylines also by moving vertices.", "4 C07"),
